@@ -598,7 +598,12 @@ type lifeCase struct {
 	Inv        bool   `json:"inv"`                   // one thread calls QueueInventory + a trickle tick
 	Disc       string `json:"disc"`                  // "api" (p.Disconnect), "remote-close", "write-error", "none"
 	RemotePing bool   `json:"remote_ping"`
-	Bound      int    `json:"bound"`
+	// Hs: "" = the threads start after a completed handshake; "silent" = the
+	// remote has sent nothing yet; "version" = the remote has sent its version
+	// only (the peer is inside negotiate*Protocol).  Disc "timeout" fires the
+	// negotiation timer.
+	Hs    string `json:"hs,omitempty"`
+	Bound int    `json:"bound"`
 	Choices    []int  `json:"choices,omitempty"`
 	// Shard k of N: the subtrees below the first deviation are dealt round-robin
 	// to N processes (every shard also runs the canonical schedule).
@@ -629,12 +634,19 @@ func runLife(lc lifeCase, prefix []int) (*vsched.Exec, *lifeObs) {
 		p := newPeer(lc.Inbound, false, &log)
 		p.AssociateConnection(c)
 		vsched.WaitQuiescent()
-		c.in.Write(buildFrame(fVersion, 0))
-		vsched.WaitQuiescent()
-		c.in.Write(buildFrame(fVerAck, 0))
-		vsched.WaitQuiescent()
-		if !p.Connected() || !p.VerAckReceived() {
-			panic("handshake prefix failed")
+		switch lc.Hs {
+		case "silent":
+		case "version":
+			c.in.Write(buildFrame(fVersion, 0))
+			vsched.WaitQuiescent()
+		default:
+			c.in.Write(buildFrame(fVersion, 0))
+			vsched.WaitQuiescent()
+			c.in.Write(buildFrame(fVerAck, 0))
+			vsched.WaitQuiescent()
+			if !p.Connected() || !p.VerAckReceived() {
+				panic("handshake prefix failed")
+			}
 		}
 		hsLen := c.out.Len()
 		dones := map[uint64]chan struct{}{}
@@ -696,12 +708,20 @@ func runLife(lc lifeCase, prefix []int) (*vsched.Exec, *lifeObs) {
 					vsched.Yield("writes start failing")
 					o.discCall = tick()
 					c.failWr = true
+				case "timeout":
+					vsched.Yield("negotiation timer expires")
+					o.discCall = tick()
+					for _, t := range vtime.Timers() {
+						if t.D == 30*time.Second {
+							t.Fire()
+						}
+					}
 				}
 			})
 		}
 		wg.wait()
 		vsched.WaitQuiescent()
-		if lc.Disc == "none" || lc.Disc == "write-error" {
+		if lc.Disc == "none" || lc.Disc == "write-error" || lc.Disc == "timeout" {
 			// with failing writes the peer only notices at its next write; make
 			// sure the test ends with a disconnect request in every variant
 			p.Disconnect()
@@ -864,6 +884,14 @@ func lifeCases(thorough bool) []lifeCase {
 			const n = 12
 			for k := 0; k < n; k++ {
 				out = append(out, lifeCase{Name: "2q31", Inbound: inbound, Queuers: 2, PerQ: 3, PerQ2: 1, Disc: "api", Bound: 3, ShardK: k, ShardN: n})
+			}
+		}
+		// disconnect requests during the handshake (the remote silent, or after
+		// its version only) while a caller queues a message: every goroutine
+		// must end, a completion is never signalled twice
+		for _, hs := range []string{"silent", "version"} {
+			for _, disc := range []string{"api", "remote-close", "timeout"} {
+				out = append(out, lifeCase{Name: "hs-" + hs, Inbound: inbound, Queuers: 1, PerQ: 1, Hs: hs, Disc: disc, Bound: b})
 			}
 		}
 		out = append(out, lifeCase{Name: "inv", Inbound: inbound, Queuers: 1, PerQ: 1, Inv: true, Disc: "api", Bound: b})
@@ -1148,6 +1176,11 @@ func main() {
 		}
 		for _, v := range res.Violations {
 			if v.Key == "nondeterministic" || v.Key == "replay-divergence" {
+				r.Broken("%s: %s", v.Key, v.What)
+			}
+			if strings.Contains(v.What, "is not modelled") {
+				// the code uses a construct the scheduler does not model: the
+				// harness cannot judge it (engine limitation, not a verdict)
 				r.Broken("%s: %s", v.Key, v.What)
 			}
 			r.Violation(v.Key, v.What, v.Replay)
